@@ -23,18 +23,36 @@ theorem pop_push (s : FStack) (decls : List (Nat × Nat)) :
   unfold FStack.push FStack.pop
   cases decls <;> simp
 
+/-- `element_fullname(name).is_ok()` as a function of the name's namespace and the top frame. -/
+def elemOk (ns : Nat) (top : List (Nat × Nat)) : Bool :=
+  ns == Env.noNamespace || ns == Env.xmlNamespace || (elementPrefixByNamespace top ns).isSome
+
+/-- `attribute_fullname(name).is_ok()`. -/
+def attrOk (ns : Nat) (top : List (Nat × Nat)) : Bool :=
+  ns == Env.noNamespace || ns == Env.xmlNamespace || (attributePrefixByNamespace top ns).isSome
+
+/-- `has_default_namespace` of a top frame. -/
+def hasDefault (top : List (Nat × Nat)) : Bool :=
+  top.any (fun d => d.1 == Env.emptyPrefix && d.2 != Env.noNamespace)
+
+/-- `missingOfElement` with the interning tables reduced to `namespace_for_name`. -/
+def missOf (nsOf : Nat → Nat) (top : List (Nat × Nat)) (name : Nat) (attrNames : List Nat)
+    (m : List Nat) : List Nat :=
+  attrNames.foldl (fun m a => if !attrOk (nsOf a) top then addMissing m (nsOf a) else m)
+    (if !elemOk (nsOf name) top then addMissing m (nsOf name) else m)
+
 /-- `undeclare_nodes.push(node)`: the element is in no namespace and, with its own declarations
     pushed, the empty prefix is bound to a namespace. -/
-def needsUndeclare (env : Env) (top : List (Nat × Nat)) (t : Tree) (name : Nat) : Bool :=
-  env.nsOfName name == Env.noNamespace && FStack.hasDefaultNamespace [pushTop top t.nsDecls]
+def needsUndeclare (nsOf : Nat → Nat) (top : List (Nat × Nat)) (t : Tree) (name : Nat) : Bool :=
+  nsOf name == Env.noNamespace && hasDefault (pushTop top t.nsDecls)
 
 /-- The declarations the walk pushes for the element. -/
-def walkDecls (env : Env) (top : List (Nat × Nat)) (t : Tree) (name : Nat) : List (Nat × Nat) :=
-  if needsUndeclare env top t name then undeclaredDecls t.nsDecls else t.nsDecls
+def walkDecls (nsOf : Nat → Nat) (top : List (Nat × Nat)) (t : Tree) (name : Nat) : List (Nat × Nat) :=
+  if needsUndeclare nsOf top t name then undeclaredDecls t.nsDecls else t.nsDecls
 
 /-- The top frame the walk holds below the element. -/
-def walkTop (env : Env) (top : List (Nat × Nat)) (t : Tree) (name : Nat) : List (Nat × Nat) :=
-  pushTop top (walkDecls env top t name)
+def walkTop (nsOf : Nat → Nat) (top : List (Nat × Nat)) (t : Tree) (name : Nat) : List (Nat × Nat) :=
+  pushTop top (walkDecls nsOf top t name)
 
 /-- `missing_namespace_ids`, `undeclare_nodes`, `used_prefix_ids`. -/
 structure Acc where
@@ -44,21 +62,21 @@ structure Acc where
 
 mutual
 /-- What the traversal of the subtree at `pre` adds to the three collections when it is entered
-    with the top frame `top`. -/
-def collectRec (env : Env) (top : List (Nat × Nat)) (pre : Path) : Tree → Acc → Acc
+    with the top frame `top` (`nsOf` = `namespace_for_name`). -/
+def collectRec (nsOf : Nat → Nat) (top : List (Nat × Nat)) (pre : Path) : Tree → Acc → Acc
   | .node v ks, acc =>
     match v with
     | .element name =>
-      collectKids env (walkTop env top (.node v ks) name) pre 0 ks
-        { missing := missingOfElement env [walkTop env top (.node v ks) name] name
+      collectKids nsOf (walkTop nsOf top (.node v ks) name) pre 0 ks
+        { missing := missOf nsOf (walkTop nsOf top (.node v ks) name) name
             ((Tree.node v ks).attrs.map (·.1)) acc.missing
-          undeclare := if needsUndeclare env top (.node v ks) name then acc.undeclare ++ [pre]
+          undeclare := if needsUndeclare nsOf top (.node v ks) name then acc.undeclare ++ [pre]
             else acc.undeclare
           used := acc.used ++ (Tree.node v ks).nsDecls.map (·.1) }
-    | _ => collectKids env top pre 0 ks acc
-def collectKids (env : Env) (top : List (Nat × Nat)) (pre : Path) : Nat → List Tree → Acc → Acc
+    | _ => collectKids nsOf top pre 0 ks acc
+def collectKids (nsOf : Nat → Nat) (top : List (Nat × Nat)) (pre : Path) : Nat → List Tree → Acc → Acc
   | _, [], acc => acc
-  | i, k :: ks, acc => collectKids env top pre (i + 1) ks (collectRec env top (pre ++ [i]) k acc)
+  | i, k :: ks, acc => collectKids nsOf top pre (i + 1) ks (collectRec nsOf top (pre ++ [i]) k acc)
 end
 
 /-- The state with the three collections replaced. -/
@@ -69,26 +87,40 @@ def accOf (st : RepairState) : Acc := ⟨st.missing, st.undeclare, st.used⟩
 
 theorem withAcc_accOf (st : RepairState) : withAcc st (accOf st) = st := rfl
 
-theorem elementFullname_top (env : Env) (s : FStack) (name : Nat) :
-    FStack.elementFullname env s name = FStack.elementFullname env [s.top] name := by
-  simp [FStack.elementFullname, FStack.elementPrefix, FStack.top]
+theorem exceptIsOk_elementFullname (env : Env) (s : FStack) (name : Nat) :
+    exceptIsOk (s.elementFullname env name) = elemOk (env.nsOfName name) s.top := by
+  unfold FStack.elementFullname FStack.elementPrefix elemOk
+  by_cases h1 : (env.nsOfName name == Env.noNamespace) = true
+  · simp [h1, exceptIsOk]
+  · by_cases h2 : (env.nsOfName name == Env.xmlNamespace) = true
+    · simp [h1, h2, exceptIsOk]
+    · simp only [h1, h2, Bool.false_eq_true, if_false, Bool.false_or]
+      cases elementPrefixByNamespace s.top (env.nsOfName name) with
+      | none => rfl
+      | some q => by_cases hq : (q == Env.emptyPrefix) = true <;> simp [hq, exceptIsOk]
 
-theorem attributeFullname_top (env : Env) (s : FStack) (name : Nat) :
-    FStack.attributeFullname env s name = FStack.attributeFullname env [s.top] name := by
-  simp [FStack.attributeFullname, FStack.attributePrefix, FStack.top]
+theorem exceptIsOk_attributeFullname (env : Env) (s : FStack) (name : Nat) :
+    exceptIsOk (s.attributeFullname env name) = attrOk (env.nsOfName name) s.top := by
+  unfold FStack.attributeFullname FStack.attributePrefix attrOk
+  by_cases h1 : (env.nsOfName name == Env.noNamespace) = true
+  · simp [h1, exceptIsOk]
+  · by_cases h2 : (env.nsOfName name == Env.xmlNamespace) = true
+    · simp [h1, h2, exceptIsOk]
+    · simp only [h1, h2, Bool.false_eq_true, if_false, Bool.false_or]
+      cases attributePrefixByNamespace s.top (env.nsOfName name) with
+      | none => rfl
+      | some q => rfl
 
-theorem hasDefaultNamespace_top (s : FStack) :
-    s.hasDefaultNamespace = FStack.hasDefaultNamespace [s.top] := by
-  simp [FStack.hasDefaultNamespace, FStack.top]
+theorem hasDefaultNamespace_eq (s : FStack) : s.hasDefaultNamespace = hasDefault s.top := rfl
 
-theorem missingOfElement_top (env : Env) (s : FStack) (name : Nat) (as : List Nat) (m : List Nat) :
-    missingOfElement env s name as m = missingOfElement env [s.top] name as m := by
-  unfold missingOfElement
-  rw [elementFullname_top]
+theorem missingOfElement_eq (env : Env) (s : FStack) (name : Nat) (as : List Nat) (m : List Nat) :
+    missingOfElement env s name as m = missOf env.nsOfName s.top name as m := by
+  unfold missingOfElement missOf
+  rw [exceptIsOk_elementFullname]
   have : (fun m a => if !exceptIsOk (s.attributeFullname env a) then addMissing m (env.nsOfName a) else m) =
-      (fun m a => if !exceptIsOk (FStack.attributeFullname env [s.top] a) then addMissing m (env.nsOfName a) else m) := by
+      (fun m a => if !attrOk (env.nsOfName a) s.top then addMissing m (env.nsOfName a) else m) := by
     funext m a
-    rw [attributeFullname_top]
+    rw [exceptIsOk_attributeFullname]
   rw [this]
 
 theorem foldl_scopeTraverse {σ : Type} (step : σ → ScopeEdge → σ) (pre : Path) (v : Value)
@@ -110,29 +142,29 @@ theorem foldl_go_cons {σ : Type} (step : σ → ScopeEdge → σ) (pre : Path) 
 /-- `NodeEdge::Start` of an element, read off the top frame. -/
 theorem repairStart_eq (env : Env) (st : RepairState) (pre : Path) (t : Tree) (name : Nat) :
     repairStart env st pre t name =
-      { fs := st.fs.push (walkDecls env st.fs.top t name)
-        pushed := (!(walkDecls env st.fs.top t name).isEmpty) :: st.pushed
-        missing := missingOfElement env [walkTop env st.fs.top t name] name (t.attrs.map (·.1)) st.missing
-        undeclare := if needsUndeclare env st.fs.top t name then st.undeclare ++ [pre] else st.undeclare
+      { fs := st.fs.push (walkDecls env.nsOfName st.fs.top t name)
+        pushed := (!(walkDecls env.nsOfName st.fs.top t name).isEmpty) :: st.pushed
+        missing := missOf env.nsOfName (walkTop env.nsOfName st.fs.top t name) name (t.attrs.map (·.1)) st.missing
+        undeclare := if needsUndeclare env.nsOfName st.fs.top t name then st.undeclare ++ [pre] else st.undeclare
         used := st.used ++ t.nsDecls.map (·.1)
         panicked := st.panicked } := by
   have hu : (env.nsOfName name == Env.noNamespace && (st.fs.push t.nsDecls).hasDefaultNamespace) =
-      needsUndeclare env st.fs.top t name := by
-    rw [needsUndeclare, hasDefaultNamespace_top, top_push]
+      needsUndeclare env.nsOfName st.fs.top t name := by
+    rw [needsUndeclare, hasDefaultNamespace_eq, top_push]
   unfold repairStart
   simp only [hu]
-  cases hc : needsUndeclare env st.fs.top t name with
+  cases hc : needsUndeclare env.nsOfName st.fs.top t name with
   | false =>
     simp only [walkDecls, walkTop, hc, Bool.false_eq_true, if_false]
-    rw [missingOfElement_top, top_push]
+    rw [missingOfElement_eq, top_push]
   | true =>
     simp only [walkDecls, walkTop, hc, if_true, pop_push]
-    rw [missingOfElement_top, top_push]
+    rw [missingOfElement_eq, top_push]
 
 mutual
 theorem walk_fold (env : Env) : ∀ (t : Tree) (pre : Path) (st : RepairState),
     (scopeTraverse pre t).foldl (repairStep env) st =
-      withAcc st (collectRec env st.fs.top pre t (accOf st))
+      withAcc st (collectRec env.nsOfName st.fs.top pre t (accOf st))
   | .node v ks, pre, st => by
     rw [foldl_scopeTraverse]
     cases v with
@@ -151,7 +183,7 @@ theorem walk_fold (env : Env) : ∀ (t : Tree) (pre : Path) (st : RepairState),
     | «namespace» a b => simpa [Value.isNormal, Value.category, collectRec] using walk_fold_kids env ks pre 0 st
 theorem walk_fold_kids (env : Env) : ∀ (ks : List Tree) (pre : Path) (i : Nat) (st : RepairState),
     (scopeTraverse.go pre i ks).foldl (repairStep env) st =
-      withAcc st (collectKids env st.fs.top pre i ks (accOf st))
+      withAcc st (collectKids env.nsOfName st.fs.top pre i ks (accOf st))
   | [], pre, i, st => by simp [scopeTraverse.go, collectKids, withAcc_accOf]
   | k :: ks, pre, i, st => by
     rw [foldl_go_cons, walk_fold env k, walk_fold_kids env ks]
@@ -162,7 +194,7 @@ end
     `collectRec` from the inherited declarations. -/
 theorem repairWalk_eq (env : Env) (inherited : List (Nat × Nat)) (path : Path) (sub : Tree) :
     repairWalk env inherited path sub =
-      withAcc { fs := FStack.new inherited } (collectRec env inherited path sub ⟨[], [], []⟩) := by
+      withAcc { fs := FStack.new inherited } (collectRec env.nsOfName inherited path sub ⟨[], [], []⟩) := by
   unfold repairWalk
   rw [walk_fold]
   rfl
